@@ -145,6 +145,9 @@ def run_check(spec, tier, seed):
                     broken.append((b.what, b.detail))
             hist = collections.Counter()
             for i, (r, a) in enumerate(zip(reqs, impl)):
+                if a == "not-run":
+                    hist["not-run (after repeated hangs)"] += 1
+                    continue
                 hist[st.tag(r, a)] += 1
                 if st.nontrivial(r, a):
                     distinct_nontrivial.add(st.name + " " + r)
